@@ -6,20 +6,43 @@ import contextlib
 
 ID = "C36"
 LEVEL = "exploration"
-RULE = ("every annotated function f(a, b) of vf/gen/pygen.py (int and float twins): E expression trees of depth <= 2 over + - * // "
-        "(float: + - * / //) with leaves a, b, 3 and calls of a second function; A augmented and tuple assignment for every operator; "
-        "C comparisons and and/or/not conditions of depth <= 2; S statement skeletons of nesting depth <= 2 over if, if/else, while, "
-        "for-range with 1 or 2 arguments, break, continue, augmented/tuple assignment, calls, recursion; L loop variable read after the "
-        "loop; each function is called on all 64 argument vectors of {-7,-2,-1,0,1,2,3,7}^2; calls where CPython raises, an integer "
-        "intermediate leaves 64 bits or the iteration horizon is passed are excluded; distinct non-trivial = distinct "
-        "(family, mechanism tags, returned value)")
+RULE = ("every annotated function f(a, b) of vf/gen/pygen.py (int and float twins): E expression trees of depth <= 2 over + - * // (float: + - * / //) "
+        "with leaves a, b, 3 and calls of a second function; A augmented and tuple assignment for every operator; C comparisons and and/or/not "
+        "conditions of depth <= 2; S statement skeletons of nesting depth <= 2 over if, if/else, while, for-range with 1 or 2 arguments, break, "
+        "continue, augmented/tuple assignment, calls, recursion; L loop variable read after the loop; X externals/procedures/statements: modules "
+        "compiled with python_to_ir(f, imports=...) against 9 imported functions and procedures (int, float and str parameters; every program in "
+        "both signature forms, (return type, [argument types]) tuples and annotated callables): every call site (imported function on every "
+        "ordered pair of leaves in each of 9 expression/statement contexts, two calls in one expression, nested calls, string-constant arguments "
+        "from 3 strings, procedure calls as statements), every effect statement of a menu at every position of sequence / if / if-else / while / "
+        "for skeletons with break and continue, procedures as entry point (no annotation and -> None x 17-20 bodies: pass, docstring, fall off "
+        "the end, bare return last / in if / in both branches / in loops, dead code), 7 internal procedures x 7-8 callers (incl. recursion and a "
+        "f -> qr -> pr chain), 6-7 plain statements (pass, docstring, name, constant, binop, discarded call) at 8-10 positions, first assignment "
+        "of a local inside a compound statement, all 8 int/float signatures x a menu of return/binop/compare/assign/call bodies (the ill-typed "
+        "ones are probes), and one probe per diagnostic / construct outside the subset; each function is called on all 64 argument vectors of "
+        "{-7,-2,-1,0,1,2,3,7}^2; calls where CPython raises, an integer intermediate leaves 64 bits or the iteration horizon is passed are "
+        "excluded; compared: the returned value (None for procedures) and, for X, the sequence of (imported function, arguments) calls; "
+        "distinct non-trivial = distinct (family, mechanism tags, returned value, external call trace)")
 ASSUMPTIONS = ["oracle: exec of the same source text by CPython 3.12 (the interpreter running the harness)",
                "ppci side: ppci.lang.python.python_to_ir, executed by vf/sem/irinterp.py (wrap-around i64, truncating IR '/', IEEE f64)",
                "the 64-bit / horizon exclusion is decided on an instrumented copy of the same AST (every BinOp/AugAssign result checked, "
                "every loop iteration counted); the instrumented and the plain run must return the same value",
                "programs the front end rejects with CompilerError (%, &, not, ...) or on which it crashes are counted, not judged: the "
-               "property speaks about the values of code ppci compiles"]
-CLAIM = {"technique": "bounded exhaustive enumeration of annotated Python functions x 64 argument vectors on the real front end, against CPython",
+               "property speaks about the values of code ppci compiles",
+               "family X: the imported functions are defined once (c36.ext_value: ei(p,q)=2p-q+1, ef(p,q)=p-q/2+1/4, e0()=5, es(s)=sum of the UTF-8 "
+               "bytes+1, procedures return nothing); on the CPython side they are real annotated Python functions that append (name, arguments) to a "
+               "trace, on the IR side externals of the reference interpreter that append the same record (a str argument is read back from "
+               "the interpreter's memory as a NUL-terminated UTF-8 string); strings have no other observable meaning in the property "
+               "(str-typed locals, parameters and comparisons are probes)",
+               "family X, judged: an internal error of python_to_ir (neither CompilerError nor NotImplementedError) on a program that uses only "
+               "constructs the front end implements and documents (imports, procedures, expression statements, pass, if/else assignment) and that "
+               "CPython runs is a violation keyed by the raise site inside ppci/lang/python; programs tagged 'probe' (ill-typed with respect to their "
+               "own annotations, or using a construct outside the subset) are enumerated to record the front end's reaction (diagnostic, "
+               "internal error, or compiles) and are never judged"]
+CLAIM = {"text": "Within the bound, the IR produced by the Python front end returns CPython's value and performs CPython's sequence of calls to "
+                 "imported functions, for functions and for procedures.",
+         "note": "trusted: CPython, vf/sem/irinterp.py, the shared definition of the imported functions",
+         "technique": "bounded exhaustive enumeration of annotated Python functions x 64 argument vectors on the real front end, against CPython "
+                      "(returned value and trace of imported-function calls)",
          "engine": "K1 input enumeration vs CPython exec"}
 
 HORIZON_TICKS = 4000
@@ -64,16 +87,18 @@ class _Instrument(ast.NodeTransformer):
 
 
 class Oracle:
-    """CPython evaluation of one program text."""
+    """CPython evaluation of one program text (family X: in a namespace that holds the imported functions, which record their calls)."""
 
-    def __init__(self, src):
+    def __init__(self, src, externals=False):
         self.ticks = 0
-        ns = {}
+        self.trace = []
+        ns = cpython_externals(self.trace) if externals else {}
         exec(compile(src, "<c36>", "exec"), ns)
         self.plain = ns["f"]
         tree = _Instrument().visit(ast.parse(src))
         ast.fix_missing_locations(tree)
-        ns2 = {"_chk": self._chk, "_tick": self._tick}
+        ns2 = cpython_externals(self.trace) if externals else {}
+        ns2.update({"_chk": self._chk, "_tick": self._tick})
         exec(compile(tree, "<c36-instrumented>", "exec"), ns2)
         self.instr = ns2["f"]
 
@@ -88,9 +113,10 @@ class Oracle:
             raise TickHorizon()
 
     def call(self, args, ty):
-        """-> ('ok', value, ticks) | ('skip', reason)"""
+        """ty: 'int' | 'float' | 'none' (what f is annotated to return)  -> ('ok', value, ticks, external call trace) | ('skip', reason)"""
         from vf.core import cpu_limit, CpuTimeout
         self.ticks = 0
+        del self.trace[:]
         try:
             r2 = self.instr(*args)
         except ZeroDivisionError:
@@ -104,19 +130,21 @@ class Oracle:
         except Exception as e:  # noqa  (UnboundLocalError, TypeError: CPython raises -> outside the property)
             return ("skip", "raises_" + type(e).__name__)
         ticks = self.ticks
+        trace2 = tuple(self.trace)
+        del self.trace[:]
         try:
             with cpu_limit(5):
                 r = self.plain(*args)
         except CpuTimeout:
             return ("skip", "horizon")
-        if type(r) is not type(r2) or repr(r) != repr(r2):
-            raise AssertionError("instrumented run disagrees with plain run: %r vs %r" % (r2, r))
-        want = int if ty == "int" else float
+        if type(r) is not type(r2) or repr(r) != repr(r2) or tuple(self.trace) != trace2:
+            raise AssertionError("instrumented run disagrees with plain run: %r %r vs %r %r" % (r2, trace2, r, self.trace))
+        want = {"int": int, "float": float, "none": type(None)}[ty]
         if type(r) is not want:
             return ("skip", "returns_" + type(r).__name__)
         if ty == "int" and not (I64[0] <= r <= I64[1]):
             return ("skip", "exceeds64")
-        return ("ok", r, ticks)
+        return ("ok", r, ticks, trace2)
 
 
 def fhex(x):
@@ -125,24 +153,142 @@ def fhex(x):
     return struct.pack("<d", x).hex()
 
 
-def compile_ppci(src):
+# ------------------------------------------------------------------ the imported world of family X
+# One definition of what every imported function computes (ext_value) and of how a call is written into the trace (canon); the CPython side
+# (real Python functions, cpython_externals) and the IR side (externals of the reference interpreter, interp_externals) both use it.
+
+PYTYPES = {"int": int, "float": float, "str": str}
+
+
+def ext_value(name, args):
+    if name == "ei":
+        return 2 * args[0] - args[1] + 1
+    if name == "ef":
+        return args[0] - 0.5 * args[1] + 0.25
+    if name == "e0":
+        return 5
+    if name == "es":
+        return sum(args[0].encode("utf8")) + 1
+    return None  # procedures
+
+
+def canon(v):
+    if isinstance(v, float):
+        return "f:" + fhex(v)
+    if isinstance(v, str):
+        return "s:" + v
+    return v
+
+
+def record(trace, name, args):
+    for v in args:
+        if type(v) is int and not (I64[0] <= v <= I64[1]):
+            raise Overflow64()
+    r = ext_value(name, args)
+    if type(r) is int and not (I64[0] <= r <= I64[1]):
+        raise Overflow64()
+    trace.append((name, tuple(canon(v) for v in args)))
+    return r
+
+
+_EXT_SOURCE = None
+
+
+def externals_source():
+    """Python text of the imported functions: annotated like pygen.EXTERNALS says; procedures alternate between no return annotation and -> None."""
+    global _EXT_SOURCE
+    if _EXT_SOURCE is None:
+        from vf.gen import pygen
+        out = []
+        for k, (name, (ret, params)) in enumerate(pygen.EXTERNALS.items()):
+            ps = ["p%d" % i for i in range(len(params))]
+            ann = " -> %s" % ret if ret else (" -> None" if k % 2 else "")
+            out.append("def %s(%s)%s:\n    return _record(_trace, %r, (%s))\n" % (name, ", ".join("%s: %s" % pt for pt in zip(ps, params)), ann, name,
+                                                                                   "".join(x + ", " for x in ps)))
+        _EXT_SOURCE = compile("\n".join(out), "<c36-externals>", "exec")
+    return _EXT_SOURCE
+
+
+def cpython_externals(trace):
+    ns = {"_record": record, "_trace": trace}
+    exec(externals_source(), ns)
+    return ns
+
+
+def imports_for(form):
+    """The `imports` argument of python_to_ir in one of its two documented forms."""
+    from vf.gen import pygen
+    if form is None:
+        return None
+    if form == "tuple":
+        return {name: (PYTYPES[ret] if ret else None, [PYTYPES[t] for t in params]) for name, (ret, params) in pygen.EXTERNALS.items()}
+    ns = cpython_externals([])
+    return {name: ns[name] for name in pygen.EXTERNALS}
+
+
+def read_c_string(interp, addr):
+    """The NUL-terminated UTF-8 string at addr in the reference interpreter's memory (Undefined when it runs out of its object)."""
+    out = bytearray()
+    while True:
+        b = interp.read_bytes(addr + len(out), 1)
+        if b == b"\0":
+            return out.decode("utf8")
+        out += b
+
+
+def interp_externals(trace):
+    from vf.gen import pygen
+
+    def mk(name, params):
+        def fn(interp, args):
+            if len(args) != len(params):
+                from vf.sem.irinterp import Undefined
+                raise Undefined("%s called with %d arguments, expects %d" % (name, len(args), len(params)))
+            return record(trace, name, [read_c_string(interp, a) if t == "str" else a for t, a in zip(params, args)])
+        return fn
+    return {name: mk(name, params) for name, (ret, params) in pygen.EXTERNALS.items()}
+
+
+def python2ir_site(exc):
+    """innermost frame of the traceback inside ppci/lang/python (where the front end went wrong), else the innermost ppci frame"""
+    import os
+    import traceback
+    from vf.core import innermost_ppci_frame
+    inner = innermost_ppci_frame(exc)
+    for fr in reversed(traceback.extract_tb(exc.__traceback__)):
+        if "/ppci/lang/python/" in fr.filename:
+            site = "%s:%s" % (os.path.basename(fr.filename), fr.name)
+            # when the error surfaces deeper (the IR verifier, an ir.* constructor) the key names both ends
+            return site if site == inner else site + ">" + inner
+    return inner
+
+
+def compile_ppci(src, form=None):
     """-> ('ok', module) | ('rejected', msg) | ('crash', exc)"""
     from ppci.lang.python import python_to_ir
     from ppci.common import CompilerError
     sink = io.StringIO()
     try:
         with contextlib.redirect_stdout(sink):
-            m = python_to_ir(io.StringIO(src))
+            if form is None:
+                m = python_to_ir(io.StringIO(src))
+            else:
+                m = python_to_ir(io.StringIO(src), imports=imports_for(form))
         return ("ok", m)
     except CompilerError as e:
         return ("rejected", str(e.msg)[:60])
+    except NotImplementedError as e:
+        # the front end's explicit "not implemented" (python2ir.gen_function: a function whose last block is open): unsupported, said so
+        return ("rejected", "NotImplementedError in " + python2ir_site(e))
     except Exception as e:  # noqa
         return ("crash", e)
 
 
-def run_ppci(m, args):
+def run_ppci(m, args, trace=None):
     from vf.sem.irinterp import run_function
-    return run_function(m, "f", args, max_steps=INTERP_STEPS)
+    if trace is None:
+        return run_function(m, "f", args, max_steps=INTERP_STEPS)
+    return run_function(m, "f", args, max_steps=INTERP_STEPS, externals=interp_externals(trace))
 
 
 def sign_class(a, b):
@@ -229,6 +375,8 @@ def mechanism(prog):
     """Statement-level mechanism of a skeleton, from its tags: the loop kind and what its body contains."""
     feat = prog["feat"]
     fam = prog["fam"]
+    if fam == "X":
+        return "x/" + feat[0]
     if fam == "C":
         return "cond/" + feat[0]
     if fam == "L":
@@ -268,9 +416,11 @@ def mechanism(prog):
 
 
 def locus(prog, args, kind):
-    """kind: 'value' | 'ir-undefined' | 'diverges' | 'frontend-crash/<exception type>'"""
+    """kind: 'value' | 'trace' | 'ir-undefined' | 'diverges' | 'frontend-crash/<exception type>'"""
     ty = prog["ty"]
     fam = prog["fam"]
+    if fam == "X":
+        return "%s/%s" % (mechanism(prog), kind)
     if fam in ("E", "A") and not kind.startswith("frontend-crash") and "tuple" not in prog["feat"]:
         if fam == "A":
             from vf.gen import pygen
@@ -286,17 +436,23 @@ def locus(prog, args, kind):
     return "%s/%s/%s" % (mech, ty, kind)
 
 
-def second_opinion(m, args):
-    """The same IR executed by ppci's own ir_to_python backend -> value | None (no opinion)."""
+def second_opinion(m, args, trace=None):
+    """The same IR executed by ppci's own ir_to_python backend -> value | None (no opinion).  trace: list that receives the calls of the
+    numeric imported functions (a module that calls one with a string argument gets no opinion)."""
     from vf.core import cpu_limit, CpuTimeout
     try:
         from ppci.api import ir_to_python
+        from vf.gen import pygen
         f = io.StringIO()
         ir_to_python([m], f)
         ns = {}
         sink = io.StringIO()
         with contextlib.redirect_stdout(sink):
             exec(compile(f.getvalue(), "<ir2py>", "exec"), ns)
+            if trace is not None:
+                for name, (ret, params) in pygen.EXTERNALS.items():
+                    if "str" not in params:
+                        ns["rt"].externals[name] = (lambda *a, _n=name: record(trace, _n, list(a)))
             with cpu_limit(5):
                 return ns["f"](*args)
     except CpuTimeout:
@@ -307,46 +463,84 @@ def second_opinion(m, args):
 
 # ------------------------------------------------------------------ one program
 
+def call_vector(args, sig):
+    return tuple(int(x) if t == "int" else float(x) for x, t in zip(args, sig))
+
+
+def show_trace(tr):
+    return "[" + ", ".join("%s(%s)" % (n, ", ".join(repr(struct.unpack("<d", bytes.fromhex(v[2:]))[0]) if isinstance(v, str) and v.startswith("f:") and v != "f:nan"
+                                                         else repr(v[2:]) if isinstance(v, str) and v.startswith("s:") else repr(v) for v in a)) for n, a in tr) + "]"
+
+
 def check_program(p, prog, vectors, base=0):
-    from vf.core import exc_key
     ty = prog["ty"]
-    st = compile_ppci(prog["src"])
+    isx = prog["fam"] == "X"
+    sig = tuple(prog.get("sig") or (ty, ty))
+    ret = prog.get("ret") or ty
+    form = prog.get("imports")
+    probe = "probe" in prog["feat"]
+    st = compile_ppci(prog["src"], form)
     wit0 = {"src": prog["src"], "ty": ty, "fam": prog["fam"], "feat": list(prog["feat"])}
+    if isx:
+        wit0.update(sig=list(sig), ret=ret, imports=form)
     text = prog["src"].strip().replace("\n", " | ")
+    if form:
+        text += "   [python_to_ir(.., imports={name: %s, ..})]" % ("(return type, [argument types])" if form == "tuple" else "annotated function")
     if st[0] == "rejected":
         # a diagnostic: the front end declares the construct unsupported -> outside the supported subset
         p.add()
         p.count("frontend_rejects")
         p.collect("frontend_reject_messages", st[1].split(" <")[0])
+        if isx:
+            p.count("x_rejected_probes" if probe else "x_rejected_programs_of_the_subset")
+            if not probe:
+                p.collect("x_rejected_programs_of_the_subset", "%s: %s" % (prog["feat"][0], st[1].split(" <")[0]))
         return
-    orc = Oracle(prog["src"])
+    orc = Oracle(prog["src"], externals=isx)
     if st[0] == "crash":
         # an internal error (not a diagnostic) on a function made only of constructs the property names; judged only when CPython
         # itself runs the function for at least one argument vector
         p.add()
-        runs = [a for a in vectors if orc.call(tuple(a) if ty == "int" else tuple(float(x) for x in a), ty)[0] == "ok"]
+        if probe:
+            # a construct (or an ill-typed program) outside the subset, enumerated only to record how the front end reacts: not judged
+            p.count("x_probe_frontend_crashes")
+            p.collect("x_probe_frontend_crashes", "%s: %s at %s" % ("/".join(t for t in prog["feat"] if t != "probe"), type(st[1]).__name__, python2ir_site(st[1])))
+            return
+        runs = [a for a in vectors if orc.call(call_vector(a, sig), ret)[0] == "ok"]
         if not runs:
             p.count("frontend_crash_on_function_cpython_never_runs")
             return
         p.count("frontend_crashes")
-        p.violation(locus(prog, runs[0], "frontend-crash/" + type(st[1]).__name__), "%s: python_to_ir raises %s (%s) instead of compiling this function; CPython runs it"
-                    % (text, type(st[1]).__name__, exc_key("python_to_ir", st[1]).split("/", 2)[2]), dict(wit0, args=list(runs[0])), base)
+        if isx:
+            # one defect of the front end = one raise site, whatever program reaches it
+            key = "x/frontend-crash/%s/%s" % (type(st[1]).__name__, python2ir_site(st[1]))
+        else:
+            key = locus(prog, runs[0], "frontend-crash/" + type(st[1]).__name__)
+        p.violation(key, "%s: python_to_ir raises %s (%s: %s) instead of compiling this function; CPython runs it"
+                    % (text, type(st[1]).__name__, python2ir_site(st[1]), str(st[1])[:80]), dict(wit0, args=list(runs[0])), base)
         return
     m = st[1]
+    if isx:
+        p.count("x_probes_compiled" if probe else "x_programs_compiled")
     for vi, args in enumerate(vectors):
         p.add()
         order = base + vi
-        call_args = tuple(args) if ty == "int" else tuple(float(x) for x in args)
-        o = orc.call(call_args, ty)
+        call_args = call_vector(args, sig)
+        o = orc.call(call_args, ret)
         if o[0] == "skip":
             p.count("excluded_" + o[1])
             continue
-        want, ticks = o[1], o[2]
-        r = run_ppci(m, call_args)
+        want, ticks, want_trace = o[1], o[2], o[3]
+        got_trace = [] if isx else None
+        r = run_ppci(m, call_args, got_trace)
         wit = dict(wit0, args=list(args))
         head = "%s%r" % (text, call_args)
         if r[0] == "unsupported":
             p.count("unclassified_interp_unsupported")
+            continue
+        if probe and r[0] != "ok":
+            p.count("x_probe_compiled_but_differs")
+            p.collect("x_probe_compiled_but_differs", "/".join(t for t in prog["feat"] if t != "probe"))
             continue
         if r[0] == "horizon":
             if ticks * 40 + 2000 < INTERP_STEPS:
@@ -359,15 +553,29 @@ def check_program(p, prog, vectors, base=0):
             p.violation(locus(prog, call_args, "ir-undefined"), "%s: CPython returns %r, ppci's IR has no defined result: %s" % (head, want, r[1]), wit, order)
             continue
         got = r[1][0]
-        exp = want if ty == "int" else fhex(want)
-        if got != exp:
-            so = second_opinion(m, call_args)
-            if so is not None and type(so) is type(want) and (so if ty == "int" else fhex(so)) == exp:
+        exp = want if ret != "float" else fhex(want)
+        if isx:
+            got_trace = tuple(got_trace)
+        if probe and (got != exp or got_trace != want_trace):
+            # outside the subset (ill-typed, or a construct the subset gives no meaning to, e.g. comparing strings): recorded, not judged
+            p.count("x_probe_compiled_but_differs")
+            p.collect("x_probe_compiled_but_differs", "/".join(t for t in prog["feat"] if t != "probe"))
+            continue
+        if got != exp or (isx and got_trace != want_trace):
+            so_trace = [] if isx else None
+            so = second_opinion(m, call_args, so_trace)
+            if (so is not None or ret == "none") and type(so) is type(want) and (so if ret != "float" else fhex(so)) == exp and (not isx or tuple(so_trace) == want_trace):
                 # ppci's own second executor of the same IR sides with CPython: the two IR executors disagree, nothing is concluded
                 p.count("unclassified_ir_executors_disagree")
                 continue
-            shown = got if ty == "int" else (struct.unpack("<d", bytes.fromhex(got))[0] if got != "nan" else got)
-            p.violation(locus(prog, call_args, "value"), "%s: ppci's IR returns %r, CPython returns %r" % (head, shown, want), wit, order)
+            if got != exp:
+                shown = got if ret != "float" else (struct.unpack("<d", bytes.fromhex(got))[0] if got != "nan" else got)
+                p.violation(locus(prog, call_args, "value"), "%s: ppci's IR returns %r, CPython returns %r" % (head, shown, want), wit, order)
+            else:
+                p.violation(locus(prog, call_args, "trace"), "%s: both return %r, but ppci's IR calls the imported functions as %s, CPython as %s"
+                            % (head, want, show_trace(got_trace), show_trace(want_trace)), wit, order)
+        elif isx:
+            p.outcome(("X", prog["feat"], ty, exp, want_trace))
         else:
             p.outcome((prog["fam"], prog["feat"], ty, exp))
 
@@ -392,7 +600,14 @@ def run(ctx):
     ctx.note("functions", len(progs))
     ctx.note("families", fam)
     ctx.note("argument_vectors", 64)
-    for g in (progs[0], [q for q in progs if q["fam"] == "S" and "nested" in q["feat"]][0], [q for q in progs if q["fam"] == "C"][40]):
+    xs = [q for q in progs if q["fam"] == "X"]
+    xm = {}
+    for g in xs:
+        xm[g["feat"][0]] = xm.get(g["feat"][0], 0) + 1
+    ctx.note("x_mechanisms", xm)
+    ctx.note("x_imported_functions", {n: "%s(%s)" % (r or "procedure", ", ".join(a)) for n, (r, a) in pygen.EXTERNALS.items()})
+    for g in (progs[0], [q for q in progs if q["fam"] == "S" and "nested" in q["feat"]][0], [q for q in progs if q["fam"] == "C"][40],
+              [q for q in xs if q["feat"][0] == "procedure-internal" and "recursive" in q["feat"]][0]):
         ctx.sample({"src": g["src"], "family": g["fam"], "mechanisms": list(g["feat"])})
     ctx.pmap(worker, list(enumerate(progs)))
 
@@ -401,6 +616,9 @@ def replay(w):
     from vf.core import Partial
     p = Partial()
     prog = {"src": w["src"], "ty": w["ty"], "fam": w["fam"], "feat": tuple(w["feat"])}
+    for k in ("sig", "ret", "imports"):
+        if k in w:
+            prog[k] = tuple(w[k]) if k == "sig" else w[k]
     check_program(p, prog, [tuple(w["args"])])
     if p.violations:
         k = sorted(p.violations)[0]
